@@ -925,9 +925,9 @@ class CircuitSerializer(serializer.Serializer):
                 raise ValueError(f"dimensions {dimensions} for ResetChannel must be an integer!")
             match operation_proto.resetgate.reset_type:
                 case "LZSResetViaResonator":
-                    op = LZSResetViaResonator()(*qubits)
+                    op = LZSResetViaResonator(num_qubits=len(qubits))(*qubits)
                 case "MultilevelResetViaResonator":
-                    op = MultilevelResetViaResonator()(*qubits)
+                    op = MultilevelResetViaResonator(num_qubits=len(qubits))(*qubits)
                 case _:
                     op = cirq.ResetChannel(dimension=dimensions)(*qubits)
         elif which_gate_type == 'internalgate':
